@@ -379,9 +379,9 @@ class NumberedObjectCollection(ABC):
                         f"{obj} to {type(self)}. Conflict was with {self[obj.number]}"
                     )
                 )
-            else:
-                self.__num_cache[obj.number] = obj
             new_numbers.add(obj.number)
+        for obj in other_list:
+            self.__num_cache[obj.number] = obj
         self._objects += other_list
         if self._problem:
             for obj in other_list:
